@@ -17,6 +17,8 @@ import (
 	"bytes"
 	"fmt"
 	"io"
+	stdlog "log"
+	"strings"
 	"time"
 
 	"github.com/grafana/carbon-relay-ng/destination"
@@ -28,6 +30,7 @@ import (
 	"verif/mc/harn"
 	"verif/mc/kit"
 	"verif/mc/vrt"
+	"verif/mc/vrt/vos"
 )
 
 type behaviour struct {
@@ -53,10 +56,11 @@ type params struct {
 	early   bool // start handing off before the connection attempt has been answered
 	late    bool // start handing off while a later reconnect attempt is in progress
 	admin   bool // an admin thread changes the destination's address (a dial that hangs) while traffic flows
+	spool   bool // spooling on (in-memory filesystem), lines enter the spool at the production pace of 500 us each
 }
 
 func (p params) String() string {
-	return fmt.Sprintf("endpoint=%s lines=%d iobuf=%d connbuf=%d early=%v late=%v admin=%v", behaviours[p.beh].name, p.nlines, p.iobuf, p.connbuf, p.early, p.late, p.admin)
+	return fmt.Sprintf("endpoint=%s lines=%d iobuf=%d connbuf=%d early=%v late=%v admin=%v spool=%v", behaviours[p.beh].name, p.nlines, p.iobuf, p.connbuf, p.early, p.late, p.admin, p.spool)
 }
 
 type exec struct {
@@ -71,7 +75,12 @@ func (e *exec) Body() {
 	e.net = &destharn.Net{}
 	behaviours[e.p.beh].setup(e.net)
 	vrt.SetEnv("net", e.net)
-	d, err := destination.New("r", matcher.Matcher{}, "10.1.1.1:2003", "/nospool", false, false, time.Second, 5*time.Second, e.p.connbuf, e.p.iobuf, 10, 1000, 1000, time.Second, 0, 0)
+	spoolSleep := time.Duration(0)
+	if e.p.spool {
+		vrt.SetEnv("fs", vos.NewFS())
+		spoolSleep = 500 * time.Microsecond
+	}
+	d, err := destination.New("r", matcher.Matcher{}, "10.1.1.1:2003", "/spool", e.p.spool, false, time.Second, 5*time.Second, e.p.connbuf, e.p.iobuf, 10, 1000, 1000, time.Second, spoolSleep, 0)
 	if err != nil {
 		panic(err)
 	}
@@ -137,8 +146,8 @@ func (e *exec) Body() {
 		e.viol = "the other route did not get every line"
 		return
 	}
-	if e.p.admin {
-		return // only the hand-off bound is judged while the address is being changed
+	if e.p.admin || e.p.spool {
+		return // only the hand-off bound is judged while the address is being changed / with spooling (accounting: C07)
 	}
 	switch behaviours[e.p.beh].name {
 	case "healthy":
@@ -185,6 +194,7 @@ func main() {
 	rep.Quiet()
 	log.SetLevel(log.PanicLevel)
 	log.SetOutput(io.Discard)
+	stdlog.SetOutput(io.Discard) // nsqd logs through the standard logger
 	bound := 2
 	iobufs, connbufs := []int{8, 64}, []int{1, 2}
 	if rep.Thorough() {
@@ -203,6 +213,12 @@ func main() {
 						q := p
 						q.admin = true
 						scns = append(scns, &vrt.Scenario{Name: q.String(), Cfg: vrt.Config{MaxSteps: 30000, Horizon: 20 * time.Minute}, Model: vrt.CostDelay, Bound: bound,
+							New: func() vrt.Exec { return &exec{p: q} }})
+					}
+					if strings.HasPrefix(behaviours[b].name, "closes-after") && !early && iobuf == 8 {
+						q := p
+						q.spool = true
+						scns = append(scns, &vrt.Scenario{Name: q.String(), Cfg: vrt.Config{MaxSteps: 60000, Horizon: 20 * time.Minute}, Model: vrt.CostDelay, Bound: bound,
 							New: func() vrt.Exec { return &exec{p: q} }})
 					}
 					if behaviours[b].name == "dial-hangs-then-refused" && !early {
